@@ -446,6 +446,7 @@ advance(struct detached_bitstream bs)
     Trace(("Advanced over miss-recognized bit pattern at {%u}",
            nbsx2(rb->base)));
 
+    drop_unord_link(rb->unord_link);
     decoder_free(&rb->ds);
     free(rb);
     work_units++;
@@ -531,6 +532,7 @@ do_parse(void)
       Trace(("Parser discovered a bit pattern beyond EOF at {%u}",
              nbsx2(rb->base)));
 
+      drop_unord_link(rb->unord_link);
       decoder_free(&rb->ds);
       free(rb);
       work_units++;
@@ -640,6 +642,7 @@ do_retrieve(void)
   rb->curr_pos = detach(true_bitstream);
 
   if (parsing_done) {
+    drop_unord_link(rb->unord_link);
     decoder_free(&rb->ds);
     free(rb);
     work_units++;
@@ -654,6 +657,7 @@ do_retrieve(void)
        abort this retrieve job. */
     Trace(("Retriever found himself redundand"));
     work_units++;
+    drop_unord_link(rb->unord_link);
     decoder_free(&rb->ds);
     free(rb);
     check_invariants();
